@@ -142,6 +142,72 @@ class TableEcu:
         return self.answer(pdu)
 
 
+def _r1(txt):
+    out = []
+    for part in txt.split(","):
+        if "-" in part:
+            a, b = part.split("-")
+            out += range(int(a, 0), int(b, 0) + 1)
+        else:
+            out.append(int(part, 0))
+    return out
+
+
+def _oracle_2d(tokens):
+    """what a --skip expression denotes (the property's reading, written independently of gallia's parser): per outer key
+    the union of the inner numbers / inclusive ranges; a bare outer key means everything and overrides, wherever it stands"""
+    res = {}
+    for t in tokens:
+        outer, sep, inner = t.partition(":")
+        for k in _r1(outer):
+            if not sep:
+                res[k] = None
+            elif k in res and res[k] is None:
+                pass
+            else:
+                res.setdefault(k, set()).update(_r1(inner))
+    return {k: (None if v is None else sorted(v)) for k, v in sorted(res.items())}
+
+
+def _skip_tokens(rng, skip):
+    """render a skip map as the CLI tokens a user could write for it: several spellings, split and overlapping entries,
+    bare keys before / after specific entries for the same key, ranges of keys; then shuffled"""
+    def num(n):
+        return rng.choice([str(n), hex(n), "0x%02X" % n])
+
+    def ids(v):
+        v = sorted(v)
+        parts, i = [], 0
+        while i < len(v):
+            j = i
+            while j + 1 < len(v) and v[j + 1] == v[j] + 1:
+                j += 1
+            if j > i and rng.random() < 0.8:
+                parts.append(f"{num(v[i])}-{num(v[j])}")
+            else:
+                parts += [num(x) for x in v[i:j + 1]]
+            i = j + 1
+        return ",".join(parts)
+
+    toks = []
+    for k, v in skip.items():
+        if v is None:
+            toks.append(num(k))
+            if rng.random() < 0.5:  # a redundant specific entry for a key that is skipped as a whole
+                toks.append(f"{num(k)}:{num(rng.randrange(256))}")
+            if rng.random() < 0.2:
+                toks.append(f"{num(k)}-{num(k)}:{num(rng.randrange(256))}-{num(255)}")
+        elif v:
+            cut = rng.randrange(len(v) + 1)
+            for part in (v[:cut], v[cut:]):
+                if part:
+                    toks.append(f"{num(k)}:{ids(part)}")
+            if rng.random() < 0.3:
+                toks.append(f"{num(k)}:{ids(rng.sample(v, 1))}")  # repeated
+    rng.shuffle(toks)
+    return toks
+
+
 def _fmt_skip(skip):
     if not skip:
         return "-"
@@ -211,7 +277,7 @@ def run(ctx):
     cases = []  # (line for lean, impl summary string, info)
 
     # ------------------------------------------------------------------ service scan
-    n_svc = ctx.pick(40, 400)
+    n_svc = ctx.pick(200, 1200)
     for i in range(n_svc):
         wild = rng.random() < 0.3
         ecu = TableEcu(rng, wild=wild)
@@ -233,7 +299,13 @@ def run(ctx):
             skip[rng.randrange(1, 0x7F)] = [1, 2, 3]  # entry for a session that is not scanned
         check = use_sessions and rng.random() < 0.4
         rid = rng.random() < 0.3
-        cfg = ServicesScannerConfig(target="tcp-lines://127.0.0.1:1", sessions=sessions, skip=skip,
+        skip_arg = skip
+        if skip and rng.random() < 0.7:
+            # as on the command line: text through the real Ranges2D field type; what it denotes is the oracle's map
+            skip_arg = _skip_tokens(rng, skip)
+            skip = _oracle_2d(skip_arg)
+            ctx.kind("skip:as-text")
+        cfg = ServicesScannerConfig(target="tcp-lines://127.0.0.1:1", sessions=sessions, skip=skip_arg,
                                     check_session=check, scan_response_ids=rid, db=None)
         r = _run_scanner(ServicesScanner, cfg, ecu)
         sc = r["scanner"]
@@ -255,7 +327,7 @@ def run(ctx):
                         "exchanges": len(r["trace"])})
 
     # real RandomUDSServer as ECU
-    for i in range(ctx.pick(6, 60)):
+    for i in range(ctx.pick(20, 120)):
         srv, fn = _random_server(rng)
         sess_avail = sorted(srv.services.keys())
         sessions = sorted(set(rng.sample(sess_avail, rng.randint(1, min(3, len(sess_avail)))))) if rng.random() < 0.8 else None
@@ -281,7 +353,7 @@ def run(ctx):
     captured = []
     idmod.logger.result = lambda msg, *a, **k: captured.append(str(msg))
     idmod.logger.notice = lambda *a, **k: None
-    n_id = ctx.pick(60, 600)
+    n_id = ctx.pick(300, 1800)
     for i in range(n_id):
         wild = rng.random() < 0.3
         ecu = TableEcu(rng, wild=wild)
@@ -306,8 +378,13 @@ def run(ctx):
                 skip[s] = None if rng.random() < 0.2 else sorted(set(rng.sample(range(start, max(start + 1, end + 2)), min(3, max(1, end - start)))))
         check = rng.choice([None, None, 1, 2, 5]) if use_sessions else rng.choice([None, 1])
         sns = rng.random() < 0.3
+        skip_arg = skip
+        if skip and rng.random() < 0.7:
+            skip_arg = _skip_tokens(rng, skip)
+            skip = _oracle_2d(skip_arg)
+            ctx.kind("skip:as-text")
         cfg = ScanIdentifiersConfig(target="tcp-lines://127.0.0.1:1", sessions=sessions, start=start, end=end,
-                                    payload=payload, service=UDSIsoServices(service), check_session=check, skip=skip,
+                                    payload=payload, service=UDSIsoServices(service), check_session=check, skip=skip_arg,
                                     skip_not_supported=sns, db=None, power_cycle_sleep=0)
         captured.clear()
         r = _run_scanner(ScanIdentifiers, cfg, ecu)
@@ -322,6 +399,7 @@ def run(ctx):
         # spec verdict: positives counted == positive replies the ECU really gave to the identifier probes
         if r["outcome"] in ("exit0", "exit1"):
             _id_spec(ctx, service, payload, r, counts, head)
+            _id_skip_wire(ctx, service, sessions, skip, r, head)
         elif not wild:
             ctx.disagree("id:scan-died:" + r["outcome"].split()[-1], f"identifier scan ended with {r['outcome']} on a conformant ECU (session read mode {ecu.f186}); nothing is counted",
                          {"cfg": head, "f186": ecu.f186}, impl=r["outcome"], spec_violated=True, site="ScanIdentifiers.main / ECU.check_and_set_session")
@@ -329,7 +407,7 @@ def run(ctx):
             ctx.sample({"case": head, "counts": counts, "outcome": r["outcome"], "exchanges": len(r["trace"])})
 
     # identifier scan against the real RandomUDSServer
-    for i in range(ctx.pick(6, 40)):
+    for i in range(ctx.pick(20, 100)):
         srv, fn = _random_server(rng)
         service = rng.choice([0x22, 0x27, 0x2E, 0x31])
         sess_avail = sorted(srv.services.keys())
@@ -467,7 +545,54 @@ def _svc_spec(ctx, ecu, sessions, skip, check, rid, r, head):
     # every probe happened in the session it claims: check the wire against the ECU's session at that time is implied by
     # the ground-truth comparison above (answers are session dependent); skipped ids must never be on the wire
     if sessions is not None:
-        pass
+        key = None
+        for pdu, tok in r["trace"]:
+            if len(pdu) == 2 and pdu[0] == 0x10 and pdu[1] != 0:
+                if pdu[1] in skip and skip[pdu[1]] is None and pdu[1] != 1:
+                    ctx.disagree("svc:skipped-session-requested", f"session {pdu[1]:#x} is skipped as a whole but `{pdu.hex()}` was sent",
+                                 {"cfg": head, "request": pdu.hex()}, impl=_tokens(r["trace"])[:400], spec_violated=True,
+                                 site="ServicesScanner.main / Ranges2D (unravel_2d)")
+                    break
+                if tok.startswith("p"):
+                    key = pdu[1]  # positive session change: set_session / check_and_set_session / leave_session
+                continue
+            if key is None or key not in skip:
+                continue
+            is_probe = len(pdu) in (2, 3, 4, 6) and not any(pdu[1:]) and pdu[0] != 0x3E
+            if is_probe and (skip[key] is None or pdu[0] in skip[key]):
+                ctx.disagree("svc:skipped-sid-requested", f"service id {pdu[0]:#x} is skipped in session {key:#x} but the probe `{pdu.hex()}` was sent there",
+                             {"cfg": head, "session": key, "request": pdu.hex()}, impl=_tokens(r["trace"])[:400], spec_violated=True,
+                             site="ServicesScanner.perform_scan / Ranges2D (unravel_2d)")
+                break
+
+
+def _id_skip_wire(ctx, service, sessions, skip, r, head):
+    """identifiers the --skip expression names for a session are never requested in that session (read off the wire)"""
+    if sessions is None or not skip or service not in (0x22, 0x2E, 0x31):
+        return
+    key = None
+    for pdu, tok in r["trace"]:
+        if len(pdu) == 2 and pdu[0] == 0x10 and pdu[1] != 0:
+            if pdu[1] in skip and skip[pdu[1]] is None and pdu[1] != 1:
+                ctx.disagree("id:skipped-session-requested", f"session {pdu[1]:#x} is skipped as a whole but `{pdu.hex()}` was sent",
+                             {"cfg": head, "request": pdu.hex()}, impl=_tokens(r["trace"])[:400], spec_violated=True,
+                             site="ScanIdentifiers.main / Ranges2D (unravel_2d)")
+                return
+            if tok.startswith("p"):
+                key = pdu[1]
+            continue
+        if key is None or key not in skip or pdu[0] != service or pdu == b"\x22\xf1\x86":
+            continue
+        ident = None
+        if service in (0x22, 0x2E) and len(pdu) >= 3:
+            ident = int.from_bytes(pdu[1:3], "big")
+        elif service == 0x31 and len(pdu) >= 4:
+            ident = int.from_bytes(pdu[2:4], "big")
+        if ident is not None and (skip[key] is None or ident in skip[key]):
+            ctx.disagree("id:skipped-identifier-requested", f"identifier {ident:#x} is skipped in session {key:#x} but `{pdu.hex()}` was sent there",
+                         {"cfg": head, "session": key, "request": pdu.hex()}, impl=_tokens(r["trace"])[:400], spec_violated=True,
+                         site="ScanIdentifiers.perform_scan / Ranges2D (unravel_2d)")
+            return
 
 
 def _id_spec(ctx, service, payload, r, counts, head):
